@@ -6,12 +6,11 @@ open Neutrino.Utxo
 #print axioms C10_once
 #print axioms C10_result_first
 #print axioms C10_deliver_drops_second
-#print axioms C10_result_idempotent_counterexample
+#print axioms C10_result_idempotent
+#print axioms C10_result_idempotent_iter
+#print axioms C10_none_lost
 #print axioms C10_all_answered_partial
-#print axioms C10_lost_empty
-#print axioms C10_all_answered_no_failures
 #print axioms C10_spin_only_above_tip
 #print axioms C10_all_answered_counterexample
-#print axioms C10_lost_counterexample
 #print axioms C10_source_facts
 #print axioms C10_no_spin_partial
